@@ -13,6 +13,9 @@ import (
 	"go/constant"
 	"go/token"
 	"go/types"
+	"sort"
+	"strings"
+	"sync"
 
 	"golang.org/x/tools/go/ssa"
 )
@@ -32,6 +35,7 @@ type pathQuery struct {
 	target  func(ssa.Instruction) bool
 	avoid   func(ssa.Instruction) bool
 	blocked map[edgeKey]bool
+	assume  map[ssa.Value]bool // boolean values taken as given on every path (scenario / truth-table row)
 }
 
 func entryPos(fn *ssa.Function) ipos { return ipos{fn.Blocks[0], -1} }
@@ -47,11 +51,18 @@ func posOf(in ssa.Instruction) ipos {
 }
 
 // find returns (true, witness) if a path exists from just after `from` to a target.
+//
+// The search is path-sensitive for boolean facts: taking an edge of `if v` records v (an immutable SSA value) as
+// true/false, entering a block evaluates its boolean phis for the edge taken (a constant, or a value whose fact is
+// known), and a later `if v` / `if !v` whose value is known follows only the consistent edge. Facts about values
+// defined in a block are dropped when the block is entered again (a new loop iteration recomputes them). This
+// resolves correlated flags (`corrupted`, `snapshotDone`, an `isValid` flag that accumulates several tests).
 func (q pathQuery) find(from ipos) (bool, []ssa.Instruction) {
 	type state struct {
-		b    *ssa.BasicBlock
-		prev *state
-		via  *ssa.BasicBlock
+		b     *ssa.BasicBlock
+		prev  *state
+		via   *ssa.BasicBlock
+		facts map[ssa.Value]bool
 	}
 	// scan the remainder of the start block
 	scan := func(b *ssa.BasicBlock, start int) (hit ssa.Instruction, stopped bool) {
@@ -71,26 +82,59 @@ func (q pathQuery) find(from ipos) (bool, []ssa.Instruction) {
 	} else if stopped {
 		return false, nil
 	}
-	type vkey struct{ b, pred *ssa.BasicBlock }
+	type vkey struct {
+		b, pred *ssa.BasicBlock
+		facts   string
+	}
 	visited := map[vkey]bool{}
 	var queue []*state
-	push := func(prev *state, from *ssa.BasicBlock, via *ssa.BasicBlock) {
-		forced := forcedSucc(from, via)
+	rel := relevantFacts(q.fn)
+	dropFacts := false // safety valve: beyond the budget the search continues without facts (more paths, never fewer)
+	push := func(prev *state, from *ssa.BasicBlock) {
+		forced := -1
+		var condVal ssa.Value
+		condNeg := false
+		if len(from.Instrs) > 0 {
+			if iff, ok := from.Instrs[len(from.Instrs)-1].(*ssa.If); ok {
+				condVal = iff.Cond
+				if u, ok := condVal.(*ssa.UnOp); ok && u.Op == token.NOT {
+					condVal, condNeg = u.X, true
+				}
+				v, known := q.assume[condVal]
+				if !known {
+					v, known = prev.facts[condVal]
+				}
+				if known {
+					if v != condNeg {
+						forced = 0
+					} else {
+						forced = 1
+					}
+				}
+			}
+		}
 		for si, s := range from.Succs {
 			if q.blocked != nil && q.blocked[edgeKey{from, si}] {
 				continue
 			}
 			if forced >= 0 && si != forced {
-				continue // branch decided by a constant phi edge for the predecessor we came from
+				continue // branch decided by what this path already knows about the condition
 			}
-			k := vkey{s, from}
+			var facts map[ssa.Value]bool
+			if !dropFacts {
+				facts = enterFacts(prev.facts, from, si, s, condVal, condNeg, rel, q.assume)
+			}
+			k := vkey{s, from, factsKey(facts)}
 			if !visited[k] {
 				visited[k] = true
-				queue = append(queue, &state{s, prev, from})
+				if len(visited) > 400000 {
+					dropFacts = true
+				}
+				queue = append(queue, &state{s, prev, from, facts})
 			}
 		}
 	}
-	push(&state{from.b, nil, nil}, from.b, nil)
+	push(&state{from.b, nil, nil, nil}, from.b)
 	for len(queue) > 0 {
 		st := queue[0]
 		queue = queue[1:]
@@ -112,9 +156,183 @@ func (q pathQuery) find(from ipos) (bool, []ssa.Instruction) {
 		if stopped {
 			continue
 		}
-		push(st, st.b, st.via)
+		push(st, st.b)
 	}
 	return false, nil
+}
+
+// enterFacts: the facts that hold on entering s from `from` through its si-th edge, given the facts at `from`.
+func enterFacts(old map[ssa.Value]bool, from *ssa.BasicBlock, si int, s *ssa.BasicBlock, condVal ssa.Value, condNeg bool, rel map[ssa.Value]bool, assume map[ssa.Value]bool) map[ssa.Value]bool {
+	out := map[ssa.Value]bool{}
+	for k, v := range old {
+		out[k] = v
+	}
+	// the edge taken decides the condition (only for a two-way branch with distinct targets)
+	if condVal != nil && len(from.Succs) == 2 && from.Succs[0] != from.Succs[1] {
+		if _, isConst := condVal.(*ssa.Const); !isConst && rel[condVal] {
+			out[condVal] = (si == 0) != condNeg
+		}
+	}
+	// phis of s for this edge, evaluated simultaneously against the facts before entry
+	type upd struct {
+		p     *ssa.Phi
+		v     bool
+		known bool
+	}
+	var upds []upd
+	pi := -1
+	for i, p := range s.Preds {
+		if p == from {
+			// a block can be a predecessor twice (both edges of an `if`): take the edge index that matches
+			if pi < 0 || i == predIndexForSucc(from, si, s) {
+				pi = i
+			}
+		}
+	}
+	for _, in := range s.Instrs {
+		p, ok := in.(*ssa.Phi)
+		if !ok {
+			break
+		}
+		if !isBoolType(p.Type()) || pi < 0 || !rel[p] {
+			upds = append(upds, upd{p, false, false})
+			continue
+		}
+		e := p.Edges[pi]
+		neg := false
+		if u, ok := e.(*ssa.UnOp); ok && u.Op == token.NOT {
+			e, neg = u.X, true
+		}
+		if c, ok := e.(*ssa.Const); ok && c.Value != nil && c.Value.Kind() == constant.Bool {
+			upds = append(upds, upd{p, constant.BoolVal(c.Value) != neg, true})
+		} else if v, known := assume[e]; known {
+			upds = append(upds, upd{p, v != neg, true})
+		} else if v, known := out[e]; known {
+			upds = append(upds, upd{p, v != neg, true})
+		} else {
+			upds = append(upds, upd{p, false, false})
+		}
+	}
+	// values defined in s are recomputed now: forget what an earlier visit knew about them
+	for k := range out {
+		if in, ok := k.(ssa.Instruction); ok && in.Block() == s {
+			delete(out, k)
+		}
+	}
+	for _, u := range upds {
+		if u.known {
+			out[u.p] = u.v
+		}
+	}
+	if len(out) == 0 {
+		return nil
+	}
+	return out
+}
+
+var relevantCache = map[*ssa.Function]map[ssa.Value]bool{}
+var relevantMu sync.Mutex
+
+// relevantFacts: the boolean values worth remembering along a path — conditions that more than one branch tests,
+// boolean phis that (transitively) feed a branch condition, and the non-constant values those phis merge.
+func relevantFacts(fn *ssa.Function) map[ssa.Value]bool {
+	relevantMu.Lock()
+	defer relevantMu.Unlock()
+	if r, ok := relevantCache[fn]; ok {
+		return r
+	}
+	rel := map[ssa.Value]bool{}
+	uses := map[ssa.Value]int{}
+	strip := func(v ssa.Value) ssa.Value {
+		if u, ok := v.(*ssa.UnOp); ok && u.Op == token.NOT {
+			return u.X
+		}
+		return v
+	}
+	var work []*ssa.Phi
+	for _, b := range fn.Blocks {
+		if len(b.Instrs) == 0 {
+			continue
+		}
+		if iff, ok := b.Instrs[len(b.Instrs)-1].(*ssa.If); ok {
+			c := strip(iff.Cond)
+			uses[c]++
+			if p, ok := c.(*ssa.Phi); ok && !rel[p] {
+				rel[p] = true
+				work = append(work, p)
+			}
+		}
+	}
+	for v, n := range uses {
+		if n > 1 {
+			rel[v] = true
+		}
+	}
+	for len(work) > 0 {
+		p := work[0]
+		work = work[1:]
+		for _, e := range p.Edges {
+			e = strip(e)
+			if _, isConst := e.(*ssa.Const); isConst {
+				continue
+			}
+			if !isBoolType(e.Type()) {
+				continue
+			}
+			if p2, ok := e.(*ssa.Phi); ok {
+				if !rel[p2] {
+					rel[p2] = true
+					work = append(work, p2)
+				}
+				continue
+			}
+			rel[e] = true
+		}
+	}
+	relevantCache[fn] = rel
+	return rel
+}
+
+// predIndexForSucc: the index in s.Preds that corresponds to from's si-th successor edge (go/ssa keeps duplicate
+// predecessor entries in edge order).
+func predIndexForSucc(from *ssa.BasicBlock, si int, s *ssa.BasicBlock) int {
+	// count how many earlier successor edges of `from` also lead to s
+	nth := 0
+	for k := 0; k < si; k++ {
+		if from.Succs[k] == s {
+			nth++
+		}
+	}
+	for i, p := range s.Preds {
+		if p == from {
+			if nth == 0 {
+				return i
+			}
+			nth--
+		}
+	}
+	return -1
+}
+
+func isBoolType(t types.Type) bool {
+	b, ok := t.Underlying().(*types.Basic)
+	return ok && b.Info()&types.IsBoolean != 0
+}
+
+func factsKey(f map[ssa.Value]bool) string {
+	if len(f) == 0 {
+		return ""
+	}
+	ks := make([]string, 0, len(f))
+	for k, v := range f {
+		c := byte('0')
+		if v {
+			c = '1'
+		}
+		ks = append(ks, fmt.Sprintf("%p%c", k, c))
+	}
+	sort.Strings(ks)
+	return strings.Join(ks, ",")
 }
 
 func isReturn(in ssa.Instruction) bool { _, ok := in.(*ssa.Return); return ok }
@@ -476,4 +694,19 @@ func retVal(rt *ssa.Return, i int) ssa.Value {
 		return last
 	}
 	return v
+}
+
+// findVia: like find, but the path must execute an instruction matching `via` before it reaches the target.
+func (q pathQuery) findVia(from ipos, via func(ssa.Instruction) bool) (bool, []ssa.Instruction) {
+	for _, v := range findInstrs(q.fn, via) {
+		v := v
+		f1, w1 := pathQuery{fn: q.fn, target: func(in ssa.Instruction) bool { return in == v }, avoid: q.avoid, blocked: q.blocked}.find(from)
+		if !f1 {
+			continue
+		}
+		if f2, w2 := q.find(posOf(v)); f2 {
+			return true, append(w1, w2...)
+		}
+	}
+	return false, nil
 }
